@@ -8,6 +8,7 @@ import (
 	"pgregory.net/rapid"
 	"verif/harness/asam"
 	"verif/harness/evid"
+	"verif/harness/iosm"
 )
 
 const ruleC10 = "generated pairs; the emitted script is cut after k single commands (halves of joined lines and sub-mode lines count separately; quick: up to 6 drawn k, thorough: all k); " +
@@ -34,6 +35,14 @@ func TestC10(t *testing.T) {
 			c := asaCase("C10", p)
 			c.Params["cuts"] = drawCuts(rt)
 			judge(rt, ev, oracleC10asa, c, func() any { return c })
+		})
+	})
+	t.Run("ios", func(t *testing.T) {
+		rapid.Check(t, func(rt *rapid.T) {
+			p := iosm.GenPair(rt, iosm.GenOpts{})
+			c := iosCase("C10", p)
+			c.Params["cuts"] = drawCuts(rt)
+			judge(rt, ev, oracleC10ios, c, func() any { return c })
 		})
 	})
 }
